@@ -209,6 +209,9 @@ struct Model {
     last_max: u64,
     /// re-evaluate a body read as if the request carried no Expect (second half of a Free cell)
     ignore_expect: bool,
+    /// the last call was a body read that failed part-way: the documentation does not say
+    /// whether the read side is then back at `Head` or shut down (the stream is dead either way)
+    read_state_open: bool,
 }
 
 
@@ -318,6 +321,7 @@ impl Model {
                         self.read = MRead::Head;
                         if m.body.len() < n {
                             self.at_eof = true;
+                            self.read_state_open = true;
                             (Exp::Err(HttpError::Truncated), wire)
                         } else {
                             (Exp::OkBody(m.body[..n].to_vec()), wire)
@@ -489,7 +493,7 @@ fn run_program(script_idx: usize, prog: &[OpK], interleaved: bool, gated: bool) 
         while feeder.feed() {}
     }
     let mut conn = HttpConn::new(addr(), async_net::TcpStream::sim_from_conn(id));
-    let mut model = Model { read: MRead::Head, write: MWrite::None, msgs: msgs.clone(), mi: 0, at_eof: false, fin_sent: false, last_max: 0, ignore_expect: false };
+    let mut model = Model { read: MRead::Head, write: MWrite::None, msgs: msgs.clone(), mi: 0, at_eof: false, fin_sent: false, last_max: 0, ignore_expect: false, read_state_open: false };
     let mut wire_seen = 0usize;
     let ctx = |i: usize| format!("script '{sname}', program {:?}, at op #{i} {:?}", prog, prog[i]);
     for (i, op) in prog.iter().enumerate() {
@@ -584,6 +588,13 @@ fn run_program(script_idx: usize, prog: &[OpK], interleaved: bool, gated: bool) 
         }
         wire_seen = wire_all.len();
         // states
+        if model.read_state_open {
+            model.read_state_open = false;
+            if model.read == MRead::Head && conn.read_state == ReadState::Shutdown {
+                gen::count("probe.read_shut_after_truncated_body");
+                model.read = MRead::Shutdown;
+            }
+        }
         let rs_ok = match (&model.read, &conn.read_state) {
             (MRead::Head, ReadState::Head) | (MRead::Shutdown, ReadState::Shutdown) => true,
             (MRead::Body { decl, expect }, ReadState::Body { len, expect_continue, chunked, gzip }) => {
@@ -790,6 +801,7 @@ pub fn spec() -> PropertySpec {
         components: components_server(),
         assumptions: vec![
             "cells the documentation leaves open (reading an Expect body after the final response was sent) are implementation-free: only wire silence on error is required",
+            "after a body read that failed part-way (Truncated) the read side may be back at Head or shut down: the stream is at its end either way and the documentation names neither (found by a property-preserving change, benign/C04-2)",
             "a second automatic 100 Continue for the same request (manual write_http_continue followed by a body read) is accepted: interim responses may repeat",
         ],
     }
